@@ -1,5 +1,6 @@
 import Driver.Util
 import MpcVerif.Model.Gmw
+import MpcVerif.Model.GmwHist
 
 namespace Drv.C10
 open Mpc Mpc.Gmw Drv
@@ -135,6 +136,58 @@ where
       some { words := a.size, a := a, b := ← parseWords b, c := ← parseWords c }
     | _ => none
 
+/-! ### histories of `Run` calls on one Network (`Model/GmwHist.lean`) -/
+
+/-- one call: `<sizes> <numWires> <nIn> <nOut> <gates> <x> <rnd>` -/
+def parseCall (n : Nat) (sizes nw nin nout gates xs rnd : String) : Option Call :=
+  match parseCircuit nw nin nout gates, (splitC sizes).mapM String.toNat? with
+  | some c, some sizes =>
+    let xsL := (splitC xs).map fun s => natOfBits (parseBits s)
+    let rndL := ((splitC rnd).map fun s => natOfBits (parseBits s)).toArray
+    if sizes.length != n || xsL.length != n || rndL.size != n * n then none else
+    some { c := c, sizes := sizes, x := fun p => xsL.getD p 0, rnd := fun p q => rndL.getD (p * n + q) 0 }
+  | _, _ => none
+
+def parseCalls (n : Nat) : List String → Option (List Call)
+  | [] => some []
+  | a :: b :: c :: d :: e :: f :: g :: rest => do
+    let k ← parseCall n a b c d e f g
+    let ks ← parseCalls n rest
+    some (k :: ks)
+  | _ => none
+
+/-- per call: level digest of ITS circuit, every party's complete wire store
+(stale bits of earlier calls included) and every party's output -/
+def histItems : List Call → List RunResult → List String
+  | k :: ks, .ok ps outs :: rs =>
+    let ws := ",".intercalate (ps.map fun p => storeStr p.wires)
+    let os := ",".intercalate (outs.map bitsStr)
+    s!"lv={levelDigest k.c};w={ws};o={os}" :: histItems ks rs
+  | _, .unsupported :: _ => ["unsupported"]
+  | _, .blocked :: _ => ["blocked"]
+  | _, _ => []
+
+/-- `hist <pools> <call>*`: the calls run one after the other on the state the
+previous call left; after the last call the words every party has consumed. -/
+def handleHist (pools : String) (rest : List String) : String :=
+  match (splitC pools).mapM handleRun.parseState' with
+  | none => "bad-op"
+  | some pl =>
+    let n := pl.length
+    match parseCalls n rest with
+    | none => "bad-op"
+    | some ks =>
+      let pools := fun p => pl.getD p Triples.empty
+      let rs := runHist ks (fresh n pools)
+      let items := histItems ks rs
+      let used := match rs.getLast? with
+        | some (.ok ps _) =>
+          if rs.length == ks.length then
+            ["used=" ++ ",".intercalate (ps.map fun p => toString ((pools p.id).words - p.pool.words))]
+          else []
+        | _ => []
+      "|".intercalate (items ++ used)
+
 def handleTb (n words as bs ss rs ds : String) : String :=
   match n.toNat?, words.toNat?, (splitC as).mapM parseWords, (splitC bs).mapM parseWords,
       (splitC ss).mapM parseWords, (splitC rs).mapM parseWords with
@@ -153,6 +206,7 @@ def handleTb (n words as bs ss rs ds : String) : String :=
 def handle (args : List String) : String :=
   match args with
   | ["run", sizes, nw, nin, nout, gates, xs, rnd, pools] => handleRun sizes nw nin nout gates xs rnd pools
+  | "hist" :: pools :: rest => handleHist pools rest
   | ["tb", n, words, as, bs, ss, rs, ds] => handleTb n words as bs ss rs ds
   | ["app", dst, src, n] =>
     match parseState dst, parseState src, n.toNat? with
